@@ -5,15 +5,15 @@ TRUSTED = [
     "class A (Model/NtMod.lean, value level over the C01 digit layer, executed by the driver on every nt_srt / nt_mod line with the model's "
     "prediction in the model column; proved in Lemmas/NtMod*.lean, theorems in Props/C09Mod.lean): bn_srt (binary search as coded; srt_exact: "
     "= Nat.sqrt for every a >= 0 within the supplied fuel; error for a < 0); bn_mod_pre_barrt + bn_mod_barrt (early exit, long-operand "
-    "fallback, truncated difference with wrap-around, correction loop; mod_barrt_exact: = a mod m for all a >= 0, m > 0, w >= 2; "
+    "fallback, truncated difference with wrap-around, correction loop, negative operands as repaired by 060ee71; mod_barrt_exact: = a mod m in [0, m) for EVERY integer a, m > 0, w >= 2; "
     "mod_barrt_corrections_le: at most 2 corrections); bn_mod_pre_monty (Newton iteration with the compiled number of steps; "
     "pre_monty_exact for 4 <= w <= 64), bn_mod_monty_basic / _comba / bn_mod_monty / _back as REDC (mod_monty_exact, monty_back_exact: "
     "canonical r with r*R = a mod m for 0 <= a < m*R), bn_mod_monty_conv (monty_conv_exact); bn_mod_pre_pmers + bn_mod_pmers "
-    "(mod_pmers_exact for all a >= 0 and EVERY m > 0; mod_pmers_fold_terminates; mod_pmers_neg states the value for a < 0)",
+    "(mod_pmers_exact: = a mod m in [0, m) for EVERY integer a and EVERY m > 0; mod_pmers_fold_terminates; mod_pmers_neg spells out the negative case)",
     "Mod family, value-level abstraction: bn_muld_low / bn_modn_low / bn_mula_low are not modelled digit by digit (the code's `mu` lower limit "
     "is always 0, the upper limit is a truncation mod B^(k+1)); Montgomery reduction outside its contract (a < 0, a >= m*R, more than 2k "
-    "digits) is mirrored by the model but not judged by the spec column; negative operands of bn_mod_barrt / bn_mod_pmers with |a| < m or "
-    "m | a are not presented (findings/C09-ext-mod-1: the library returns a resp. m)",
+    "digits) is mirrored by the model but not judged by the spec column; negative operands of bn_mod_barrt / bn_mod_pmers (|a| < m, negative "
+    "multiples of m and their neighbours) are presented in every run since the repair 060ee71 of findings/C09-ext-mod-1",
 ]
 CORPUS = ["nt_srt 0", "nt_srt 1", "nt_srt 2", "nt_srt 3", "nt_srt 4", "nt_srt -1", "nt_srt -4"]
 
@@ -99,8 +99,6 @@ def gen_barrt(rng, w, cap, digs, n):
     def emit(a, m):
         if _used(a, w) > digs or _used(m, w) > digs:
             return
-        if a < 0 and (-a < m or a % m == 0):
-            return      # findings/C09-ext-mod-1: negative a with |a| < m is returned unchanged, negative multiples of m give m
         out.append("nt_mod barrt %s %x" % (hx(a), m))
         p = barrt_path(abs(a), m, w)
         if p is not None:
@@ -108,7 +106,8 @@ def gen_barrt(rng, w, cap, digs, n):
 
     for m in (1, 2, 3, 5, B - 1, B, B + 1, B * B - 1, B * B, B ** 3, B ** 3 + 1):
         out.append("nt_mod pre_barrt 0 %x" % m)
-        for a in (0, 1, m - 1, m, m + 1, 2 * m, 2 * m - 1, 3 * m - 1, B ** (2 * _used(m, w)) - 1, B ** (2 * _used(m, w)), -m - 1, -2 * m + 1, -2 * m - 1):
+        for a in (0, 1, m - 1, m, m + 1, 2 * m, 2 * m - 1, 3 * m - 1, B ** (2 * _used(m, w)) - 1, B ** (2 * _used(m, w)), -m - 1, -2 * m + 1, -2 * m - 1,
+                  -1, -(m - 1), -(m // 2), -m, -2 * m, -3 * m, -(B ** (2 * _used(m, w)) - 1) // m * m):      # negative: |a| < m, negative multiples (canonical since fix 060ee71)
             emit(a, m)
     out += ["nt_mod pre_barrt 0 0", "nt_mod pre_barrt 0 -5", "nt_mod barrt 5 0", "nt_mod barrt 5 -3", "nt_mod barrt -5 -3", "nt_mod barrt 0 0"]
     for _ in range(n):
@@ -260,7 +259,7 @@ def gen_pmers(rng, w, cap, digs, n):
     """every modulus m > 0 is admissible: u = 2^bits(m) - m <= 2^(bits-1), so the folding loop at least halves q in every round
     (Props.C09.mod_pmers_fold_terminates) — no hang guard is needed beyond the operand length"""
     out = ["nt_mod pmers 5 0", "nt_mod pmers 5 -7", "nt_mod pmers -5 -7", "nt_mod pmers 0 0", "nt_mod pmers 0 1", "nt_mod pmers 5 1", "nt_mod pmers 7 1",
-           "nt_mod pmers 64 7", "nt_mod pmers -5 7", "nt_mod pmers 8 8", "nt_mod pmers 7 8", "nt_mod pmers ff 10", "nt_mod pmers 100 ff"]
+           "nt_mod pmers 64 7", "nt_mod pmers -5 7", "nt_mod pmers -7 7", "nt_mod pmers -e 7", "nt_mod pmers -1 7", "nt_mod pmers -6 7", "nt_mod pmers -8 8", "nt_mod pmers -ff ff", "nt_mod pmers 8 8", "nt_mod pmers 7 8", "nt_mod pmers ff 10", "nt_mod pmers 100 ff"]
     maxd = min(digs, cap // 2 - 1)
     for _ in range(n):
         m = pmers_modulus(rng, w, digs)
@@ -284,9 +283,12 @@ def gen_pmers(rng, w, cap, digs, n):
         a %= 1 << (w * maxd)
         if rng.chance(1, 5):
             a = -a
-        if a < 0 and a % m == 0:
-            continue        # findings/C09-ext-mod-1: negative multiples of m give m
         out.append("nt_mod pmers %s %x" % (hx(a), m))
+        if rng.chance(1, 4):     # negative operands: |a| < m, negative multiples of m (canonical since fix 060ee71), and their neighbours
+            q = 1 + rng.bits(rng.choice([1, 3, bits]))
+            for na in (-rng.below(m) if m > 1 else 0, -(m - 1), -m, -q * m, -q * m - 1, -q * m + 1):
+                if abs(na).bit_length() <= w * maxd:
+                    out.append("nt_mod pmers %s %x" % (hx(na), m))
     return out
 
 
